@@ -3,7 +3,7 @@ from . import stackrun as S
 from . import monitors as M
 
 PLAN = [('faults', 10, 5), ('shutdown', 5, 1)]
-MONITORS = [M.mon_one_outcome, M.mon_body_set, M.mon_completion_barrier]
+MONITORS = [M.mon_fault_body, M.mon_one_outcome, M.mon_body_set, M.mon_completion_barrier]
 THEOREMS = "C06_first_fault_recorded, C06_exit_cancels, C06_failure_body, C06_failure_type, C06_reset_received_silent, C06_failure_requests_reset"
 CORPUS = ['C06']
 
